@@ -577,6 +577,105 @@ def run_parser_matrix(rep):
             rep.count('parser_matrix_rejections')
 
 
+def run_two_envs(rep):
+    """Formulas of an environment that is not the current one: their type
+    (FNode.get_type, shortcuts.get_type, bv_width of constructions) must not
+    depend on what the *current* environment has typed."""
+    from pysmt.environment import Environment
+    import pysmt.shortcuts as SC
+    rng = random.Random(rep.seed * 131 + rep.shard)
+    cfg = G.Cfg(max_depth=3, share=0.3)
+    for k in range(40 if rep.tier == 'quick' else 2000):
+        if rep.out_of_time():
+            break
+        top = common.fresh_env()
+        other = Environment()
+        g1, g2 = G.Gen(rng, cfg), G.Gen(rng, cfg)
+        pairs = []
+        for _ in range(6):
+            t1 = rng.choice([B.BOOL, B.INT, B.REAL, B.BV(3), B.BV(8)])
+            t2 = rng.choice([B.BOOL, B.INT, B.REAL, B.BV(3), B.BV(8)])
+            b1, b2 = g1.term(t1), g2.term(t2)
+            try:
+                f1 = B.build(b1, top)
+                f2 = B.build(b2, other)
+            except Exception:
+                continue
+            pairs.append((b1, f1, b2, f2))
+        for (b1, f1, b2, f2) in pairs:
+            for (b, f) in ((b1, f1), (b2, f2), (b1, f1)):
+                try:
+                    want = B.typeof(B.describe(f))
+                except (B.IllTyped, B.Undescribable):
+                    continue
+                rep.count('two_env_type_queries')
+                for how, fn in (('FNode.get_type', lambda: f.get_type()),
+                                ('shortcuts.get_type',
+                                 lambda: SC.get_type(f))):
+                    try:
+                        got = B.from_pytype(fn())
+                    except Exception as e:
+                        rep.violation(
+                            'C03/two-envs/%s-raises' % how,
+                            '%s of %s (built in %s environment) raised %r'
+                            % (how, B.show(b, 100), 'the current' if f is f1
+                               else 'another', e), {'bp': B.to_json(b)})
+                        continue
+                    if got != want:
+                        rep.violation(
+                            'C03/two-envs/%s' % how,
+                            '%s of %s (built in %s environment) is %r, its '
+                            'type is %r' % (how, B.show(b, 100),
+                                            'the current' if f is f1 else
+                                            'another', got, want),
+                            {'bp': B.to_json(b)})
+        rep.case(key=('two-envs', k, rep.shard))
+
+
+def run_python_literals(rep):
+    """Python values that are not numerals must be refused where a numeral
+    is expected (bool is a subclass of int)."""
+    import pysmt.typing as T
+    env = common.fresh_env()
+    mgr = env.formula_manager
+    xi = mgr.Symbol('c03_li', T.INT)
+    xr = mgr.Symbol('c03_lr', T.REAL)
+    v8 = mgr.Symbol('c03_lv', T.BVType(8))
+    fI = mgr.Symbol('c03_lf', T.FunctionType(T.INT, [T.INT, T.INT]))
+    cases = [
+        ('Int(True)', lambda: mgr.Int(True)),
+        ('Int(False)', lambda: mgr.Int(False)),
+        ('Real(True)', lambda: mgr.Real(True)),
+        ('BV(True, 8)', lambda: mgr.BV(True, 8)),
+        ('SBV(False, 4)', lambda: mgr.SBV(False, 4)),
+        ('x + True', lambda: xi + True),
+        ('x < False', lambda: xi < False),
+        ('True - r', lambda: True - xr),
+        ('f(True, 2)', lambda: fI(True, 2)),
+        ('BVZExt(v, True)', lambda: mgr.BVZExt(v8, True)),
+        ('BVExtract(v, False, True)', lambda: mgr.BVExtract(v8, False, True)),
+        ('BVRol(v, True)', lambda: mgr.BVRol(v8, True)),
+        ('v[True]', lambda: v8[True]),
+        ('Int(2.0)', lambda: mgr.Int(2.0)),
+        ('Int("3")', lambda: mgr.Int('3')),
+        ('BV(2.0, 8)', lambda: mgr.BV(2.0, 8)),
+    ]
+    for name, fn in cases:
+        rep.count('python_literal_cases')
+        rep.case(key='pylit:' + name)
+        for attempt in (0, 1):
+            try:
+                r = fn()
+            except Exception:
+                rep.count('rejections_observed')
+                continue
+            rep.violation('C03/accepted-python-value/%s' % name,
+                          '%s returned %s instead of raising%s' % (
+                              name, r, ' (second attempt)' if attempt else
+                              ''), {'case': name})
+            break
+
+
 def run(rep):
     M.NODE_MONITOR.install()
     if rep.shard == 0 and (not rep.only or rep.only == 'testsuite'):
@@ -589,9 +688,14 @@ def run(rep):
     rep.share(0.9)
     if not rep.only or rep.only == 'mixed':
         run_mixed(rep)
-    rep.share(1.0)
+    rep.share(0.95)
     if not rep.only or rep.only == 'parser':
         run_parser_matrix(rep)
+    rep.share(1.0)
+    if not rep.only or rep.only == 'two_envs':
+        run_two_envs(rep)
+    if rep.shard == 0 and (not rep.only or rep.only == 'pylit'):
+        run_python_literals(rep)
     nm = M.NODE_MONITOR
     rep.count('nodes_typed_by_create_node_monitor', nm.nodes_typed)
     seen = set()
